@@ -69,7 +69,8 @@ DOCS.update({k: ("filter", v) for k, v in FILTERS.items()})
 DOCS.update({k: ("collection", v) for k, v in COLLECTIONS.items()})
 
 DELETE = ("<delete>",)
-REPL = [DELETE, None, True, 0, -1, 1.5, "", "x", "1", [], ["x"], [1], [None], {}, {"k": "v"}, {1: 2}, datetime.date(2020, 1, 1), [[]],
+RENAME_UP, RENAME_CAP = ("<rename-key-upper>",), ("<rename-key-capitalized>",)  # the key of a map entry in another letter case
+REPL = [DELETE, RENAME_UP, RENAME_CAP, None, True, 0, -1, 1.5, "", "x", "1", [], ["x"], [1], [None], {}, {"k": "v"}, {1: 2}, datetime.date(2020, 1, 1), [[]],
         "2024-13-45", "2023-02-30", "2021/2/30", "not-a-uuid", "5x", "1 of", "and", {"gte": "x"}, {"field": 1}, [{"id": 1}], "critical!", "attack.", ".t1059", ".", "a.b.c", "a{99999999999}", "(a", "10.0.0.1/8", 10**30, float("inf"), float("nan"), -0.0, b"bytes", datetime.datetime(2020, 1, 1, 12, 0)]
 SMALL = ["rule_min", "corr_event_count", "filter_any"]
 
@@ -90,15 +91,28 @@ def paths(doc, prefix=()):
             yield from paths(v, prefix + (i,))
 
 
+SAME = ("<unchanged>",)
+
+
 def mutate(doc, path, repl):
     doc = copy.deepcopy(doc)
     if not path:
+        if repl in (RENAME_UP, RENAME_CAP):
+            return SAME
         return None if repl is DELETE else copy.deepcopy(repl)
     cur = doc
     for p in path[:-1]:
         cur = cur[p]
     if repl is DELETE:
         del cur[path[-1]]
+    elif repl in (RENAME_UP, RENAME_CAP):
+        k = path[-1]
+        nk = (k.upper() if repl is RENAME_UP else k.capitalize()) if isinstance(k, str) else k
+        if not isinstance(cur, dict) or nk == k or nk in cur:
+            return None if not path else SAME
+        items = [((nk if a == k else a), b) for a, b in cur.items()]
+        cur.clear()
+        cur.update(items)
     else:
         cur[path[-1]] = copy.deepcopy(repl)
     return doc
@@ -107,6 +121,8 @@ def mutate(doc, path, repl):
 def rclass(repl):
     if repl is DELETE:
         return "delete"
+    if repl in (RENAME_UP, RENAME_CAP):
+        return "rename-key"
     return type(repl).__name__ + ("-empty" if repl in ("", [], {}) else "")
 
 
@@ -268,6 +284,8 @@ def run_shard(shard, tier, seed):
                 if kind == "collection" and not p:
                     continue  # the argument of from_dicts is always a list (yaml.safe_load_all); not a document
                 m = mutate(doc, p, r)
+                if m is SAME:
+                    continue
                 vias = ["class"] + (["dicts", "yaml"] if kind != "collection" else ["yaml"])
                 if kind in ("collection", "correlation", "filter"):
                     vias += ["dicts-collect-filters", "dicts-no-resolve", "ruleset"]
